@@ -32,9 +32,9 @@ class C07(Suite):
         n = 220 if tier == "quick" else 5000
         for _ in range(n):
             tags = lg.rand_tags(rng)
-            pre = rand_history(rng, tags, rng.randint(0, 8), multi=False, invalid=0.05)
+            pre = rand_history(rng, tags, rng.randint(0, 8), multi=False, invalid=0.05, class_level=True)
             k = rng.choice([1, 2, 3, 4, 6, 12])
-            members = [rand_req(rng, tags, multi=False, invalid=0.3) for _ in range(k)]
+            members = [rand_req(rng, tags, multi=False, invalid=0.3, class_level=True) for _ in range(k)]
             yield {"budget": rng.choice([488, 488, 60]), "tags": tags, "pre": pre, "members": members}
 
     def impl(self, c):
